@@ -415,6 +415,16 @@ skip decisions (they differ only in the bytes before the slice start and after i
 before the cursor this is false, so the statement is about the entry points). Supported by the searches described
 at the top (15×15 flag combinations × template inputs, 550k random parses: no other panicking class), not by a proof. -/
 
+/-- why the open part is stated for the entry points only: `parse_number` started in the middle of a buffer (digit
+before the cursor; or a non-zero `integer_count`) with the plain `i` predicate — not reachable from
+`parse_complete` / `parse_partial`, no harness op -/
+theorem witness_parseNumber_midbuffer :
+    panicTag (parseNumber ⟨fFormat, ⟨0xa0a0a000000005f000000070000000c⟩, true⟩ false {}
+      { slc := [49, 95] ++ inFrac.drop 3 ++ [48], index := 1 } false) = some "step_by: on digit separator" ∧
+    panicTag (parseNumber ⟨fFormat, ⟨0xa0a0a000000005f000000070000000c⟩, true⟩ false {}
+      { slc := [95] ++ inFrac.drop 3 ++ [48], index := 0, ic := 1 } false) = some "step_by: on digit separator" := by
+  decide +kernel
+
 /-- component `k` has a separator byte and the flags internal + trailing + consecutive without leading -/
 def hasItc (c : Cfg) (k : Comp) : Bool :=
   !c.bytesContiguous && decide (c.sepFlags k = ⟨true, false, true, true⟩)
